@@ -793,4 +793,28 @@ Section Statements.
 
   Lemma list_remove_no_operand (s : state) : st_int s = [] -> list_remove s = Ok s.
   Proof. intro H. unfold list_remove. now rewrite H. Qed.
+
+  Lemma list_set_replaces_exactly_lemma (s : state) :
+    (st_int s = [] -> list_set s = Ok s) /\
+    (forall idx r, st_int s = idx :: r -> st_ivec s = [] -> list_set s = Ok (set_int s r)) /\
+    (forall idx r ids vr, st_int s = idx :: r -> st_ivec s = ids :: vr ->
+       let d := designate ids (set_ivec (set_int s r) vr) in
+       let code := st_code (snd d) in
+       let pos := Z.to_nat (clamped_pos idx (zlen code)) in
+       zlen code <= max32 ->
+       list_set s = Ok (set_code (snd d)
+                          (match code with [] => [] | _ => firstn pos code ++ fst d :: skipn (S pos) code end))).
+  Proof.
+    split; [exact (proj1 (list_set_no_operands s))|].
+    split; [exact (proj2 (list_set_no_operands s))|]. exact (list_set_lemma s).
+  Qed.
+
+  Lemma list_remove_deletes_exactly_lemma (s : state) :
+    (st_int s = [] -> list_remove s = Ok s) /\
+    (forall idx r, st_int s = idx :: r -> zlen (st_code s) <= max32 ->
+       let code := st_code s in
+       let pos := Z.to_nat (clamped_pos idx (zlen code)) in
+       list_remove s = Ok (set_code (set_int s r)
+                             (match code with [] => [] | _ => firstn pos code ++ skipn (S pos) code end))).
+  Proof. split; [exact (list_remove_no_operand s)|exact (list_remove_lemma s)]. Qed.
 End Statements.
